@@ -41,8 +41,8 @@ StateTags(E, O) ==
 (* C02: the record of a user OTHER than the issuer of the command differs from what the specification computes *)
 (* (identity, modes, away state) - somebody was modified by a connection that is not his own                    *)
 ForeignTags(c, pre, E, O) ==
-    LET me == IF c \in DOMAIN pre.conns /\ pre.conns[c].nick # <<>> THEN {pre.conns[c].nick[1]} ELSE {}
-        mine == me \cup (IF c \in DOMAIN O.conns /\ O.conns[c].nick # <<>> THEN {O.conns[c].nick[1]} ELSE {})
+    LET me == IF c \in DOMAIN pre.conns /\ pre.conns[c].authed /\ pre.conns[c].nick # <<>> THEN {pre.conns[c].nick[1]} ELSE {}
+        mine == me \cup (IF c \in DOMAIN O.conns /\ O.conns[c].authed /\ O.conns[c].nick # <<>> THEN {O.conns[c].nick[1]} ELSE {})
     IN IF \E n \in ((DOMAIN E.users) \cap (DOMAIN O.users)) \ mine :
               \E f \in {"host", "uname", "real", "src", "modes", "away"} : E.users[n][f] # O.users[n][f]
        THEN {Tag("st", "users", "foreign", "")} ELSE {}
